@@ -902,7 +902,11 @@ func (fr *frame) selectInstr(in *ssa.Select) Value {
 		if !in.Blocking {
 			return mk(-1, false)
 		}
-		if !e.blockOnSelect(fr) {
+		var chans []*Chan
+		for _, s := range states {
+			chans = append(chans, s.ch)
+		}
+		if !e.blockOnSelect(chans) {
 			panic(unsupported("blocking select with no ready case"))
 		}
 	}
